@@ -227,6 +227,15 @@ class StmtMixin(ExprMixin):
                         and not st.locals.get("$in_init_of") == recv:
                     yield st, ("raise", ExcVal("FrozenInstanceError"))
                     return
+                if isinstance(v, Ref) and st.obj(v).kind == "pydict" and st.obj(v).get("keys") == () and isinstance(cls, ClassInfo):
+                    # `self.f = {}` where the class's declared shape models f as a dict over a fixed key set: the empty
+                    # dict in that representation (every key absent)
+                    for k_ in cls.mro():
+                        shp = self.reg.shapes.get(getattr(k_, "key", None))
+                        if shp is not None and attr in shp.fields and shp.fields[attr].kind == "slotdict":
+                            mdl = self.reg.models["slotdict"]
+                            st, v = mdl.empty(self, st)
+                            break
                 yield st.heap_set(recv, attr, v), NORMAL
                 return
             model = self.reg.models.get(o.kind)
